@@ -436,6 +436,14 @@ def gen_c10(rnd, n, thorough=False):
             cases.append(many_files_case(rnd, 'c10-%d-many' % c, ['sum']))
         if c == 4:
             cases.append({'id': 'c10-wsitem', 'lines': ['cliwsitem'], 'tags': {'layout': 'blank_in_item_name', 'kind': 'wsitem', 'files': 2, 'window': 'default'}})
+        if c == 5:
+            # a /sum request without a clock of its own (now = the epoch) while the clock moves on between the reads
+            # of the files: an error, or the sum for one instant -- never values of different instants side by side
+            l2 = CLI_LAYOUTS[rnd.pick(['two_1s', 'three_1s', 'single'])]
+            sl = item_tree(rnd, l2, 2, 0x3f000000, ['i1'], 3, 1.0)
+            for _q in range(3):
+                sl.append("clisumtick item=s/i1 pattern=*.wsp archive=%d t=@ step=%d" % (rnd.pick([-1, 0]), rnd.pick([1, 1, 2, 7])))
+            cases.append({'id': 'c10-%d-tick' % c, 'lines': sl, 'tags': {'layout': 'tick', 'kind': 'moving_clock', 'files': 3, 'window': 'default', 'remote': 1}})
         if c == 3:
             # several items, the first one slow (one of its files is held for more than a second): every item is
             # summed up to ITS OWN clock (the default end of the window), also the second and later ones
@@ -733,8 +741,9 @@ def gen_c12(rnd, n, thorough=False):
                 # the two concurrent reads fails first: not determined, not generated
                 arch = rnd.pick([-1] + list(range(k)))
             kind = rnd.pick(['view', 'view', 'viewraw', 'sum', 'diffsrc', 'diffdest', 'copysrc', 'globdiff', 'http'])
+            spell = rnd.pick(['', '', '', ' urlspell=1', ' urlspell=2'])     # the server's URL written with a trailing slash / a "." element
             for remote in (0, 1):
-                r = ' remote=%d' % remote
+                r = ' remote=%d' % remote + (spell if remote else '')
                 if kind == 'view':
                     lines.append("cliview src=s:i1/%s from=%s until=%s archive=%d header=1%s" % (nm, frm, until, arch, r))
                 elif kind == 'viewraw':
